@@ -129,6 +129,7 @@ func genConcurrencyPlan(seed uint64, tier string) *Plan {
 		}
 	}
 	c.DNSScript = map[string][]simnet.Answer{shared: sc}
+	c.DNS = map[string][]string{"peer-a.dns.test": {"10.1.0.1"}, "peer-b.dns.test": {"10.1.0.2"}}
 	c.Knobs = map[string]int{"dnsPeriodMs": 2000, "polls": polls}
 	for _, ip := range topo.uas {
 		c.TCPSinks = append(c.TCPSinks, hostPort(ip, 5060))
@@ -153,6 +154,9 @@ func genConcurrencyPlan(seed uint64, tier string) *Plan {
 			if g.chance(25) && b > 0 {
 				// routed to a host learned through (possibly) another listen entry
 				op.S["routeTo"] = topo.uas[g.intn(len(topo.uas))]
+			} else if g.chance(20) {
+				// routed to a host that only the name server knows: every listen entry that meets the name asks for it
+				op.S["routeTo"] = g.pick("peer-a.dns.test", "peer-a.dns.test", "peer-b.dns.test")
 			}
 			if proto == "tcp" {
 				op.Conn = fmt.Sprintf("c%d-%s", li, op.SrcIP)
